@@ -30,12 +30,15 @@ def deviation_costs(points, bounding):
 
 
 def explore(body, bound, bounding="delay", cap=None, on_exec=None, root=(), sched_kw=None,
-            check_replay=False):
+            check_replay=False, shard=None):
     """Enumerate every execution of body within `bound` deviations.
 
     body(sched) -> value.  on_exec(execution) is called for each execution.
     Returns Result.  DFS over choice prefixes; each execution replays its prefix then takes
     choice 0 everywhere (exactly the idiom of the brief).
+    shard=(k, n): the subtrees below the root execution are dealt round-robin to n workers and this call walks
+    the k-th share (every worker re-runs the root execution; only worker 0 reports it), so the union over
+    k = 0..n-1 is exactly the unsharded walk.
     """
     res = Result()
     sched_kw = dict(sched_kw or {})
@@ -48,9 +51,12 @@ def explore(body, bound, bounding="delay", cap=None, on_exec=None, root=(), sche
             break
         ex = S.run_once(body, prefix=prefix, expect_ns=expect, **sched_kw)
         install.cleanup_after_execution()
-        res.executions += 1
-        res.outcomes[ex.outcome] = res.outcomes.get(ex.outcome, 0) + 1
-        if on_exec is not None:
+        is_root = len(prefix) == len(root)
+        silent = is_root and shard is not None and shard[0] != 0
+        if not silent:
+            res.executions += 1
+            res.outcomes[ex.outcome] = res.outcomes.get(ex.outcome, 0) + 1
+        if on_exec is not None and not silent:
             stop = on_exec(ex)
             if stop:
                 break
@@ -69,6 +75,8 @@ def explore(body, bound, bounding="delay", cap=None, on_exec=None, root=(), sche
                 if spent_before[i] + costs[i][1][alt] > bound:
                     continue
                 children.append((ex.choices[:i] + [alt], ns[:i + 1]))
+        if is_root and shard is not None:
+            children = [c for j, c in enumerate(children) if j % shard[1] == shard[0]]
         # push in reverse so that earlier / smaller alternatives are explored first
         for c in reversed(children):
             stack.append(c)
